@@ -235,4 +235,25 @@ def pipelineOp (args impl : List String) : Option (String × String) := do
     pure ("-", spec)
   | _ => none
 
+/-- `bfile <startAgoMs|-> <stages>` — the file trigger *builder*: whatever part of the plan is already over, the trigger's
+duration is the sum of all stage durations (C15), and the limits reach the runner's options unchanged.
+impl: `dur=<ms> maxdur=<ms> conc=<n> maxit=<n>` -/
+def bfile (args impl : List String) : Option (String × String) := do
+  match args with
+  | [_start, stages] =>
+    let durs ← (stages.splitOn ";").mapM fun (st : String) =>
+      match st.splitOn ":" with
+      | [_, d, _] => d.toInt?
+      | _ => none
+    let model := s!"dur={durs.foldl (· + ·) 0} maxdur=5000 conc=3 maxit=7"
+    let spec := match impl with
+      | [d, md, c, mi] =>
+        if d ≠ s!"dur={durs.foldl (· + ·) 0}" then "FAIL trigger-duration-is-not-the-sum-of-all-stage-durations"
+        else if md ≠ "maxdur=5000" ∨ c ≠ "conc=3" ∨ mi ≠ "maxit=7" then "FAIL limits-did-not-reach-the-run-options"
+        else "ok"
+      | ["err"] => "FAIL valid-plan-refused-by-the-builder"
+      | _ => "FAIL no-impl-output"
+    pure (model, spec)
+  | _ => none
+
 end F1.Drive
